@@ -798,6 +798,155 @@ func (c *Ctx) RefBalanced(rule string, fn *ssa.Function, acquire, release, trans
 	return n
 }
 
+// TryRefBalanced: the boolean form of RefBalanced. For every call in fn of a
+// try-acquire method (returns true iff it took a counted reference on its
+// receiver), every path on which the result is true reaches, before any
+// return, a consumer of the receiver: a release call on it, a transfer call
+// with it among the arguments, or a return of it. Branches on the result (or
+// on a phi/negation of it) are followed only along the acquired side.
+func (c *Ctx) TryRefBalanced(rule string, fn *ssa.Function, try string, release, transfer []string) int {
+	isIn := func(n string, l []string) bool {
+		for _, x := range l {
+			if x == n {
+				return true
+			}
+		}
+		return false
+	}
+	closure := func(seed ssa.Value) map[ssa.Value]bool {
+		m := map[ssa.Value]bool{seed: true}
+		for changed := true; changed; {
+			changed = false
+			Instrs(fn, func(i2 ssa.Instruction) {
+				if phi, ok := i2.(*ssa.Phi); ok && !m[phi] {
+					for _, e := range phi.Edges {
+						if m[e] {
+							m[phi] = true
+							changed = true
+						}
+					}
+				}
+			})
+		}
+		return m
+	}
+	n := 0
+	Instrs(fn, func(in ssa.Instruction) {
+		call, ok := in.(*ssa.Call)
+		if !ok || CalleeName(call) != try || len(call.Call.Args) == 0 {
+			return
+		}
+		n++
+		recv := closure(call.Call.Args[0])
+		res := closure(call)
+		consumes := func(i ssa.Instruction) bool {
+			switch x := i.(type) {
+			case ssa.CallInstruction:
+				cn := CalleeName(x)
+				if isIn(cn, release) || isIn(cn, transfer) {
+					for _, a := range CallArgs(x) {
+						if recv[a] {
+							return true
+						}
+					}
+				}
+			case *ssa.Return:
+				for _, r := range x.Results {
+					if recv[r] {
+						return true
+					}
+					// results spilled to a local cell around the deferred calls
+					if ld, ok := r.(*ssa.UnOp); ok && ld.Op == token.MUL {
+						if root, ok := ld.X.(*ssa.Alloc); ok && !root.Heap {
+							if v := reachingStore(root, ld); v != nil && recv[v] {
+								return true
+							}
+						}
+					}
+				}
+			}
+			return false
+		}
+		type pos struct {
+			b *ssa.BasicBlock
+			i int
+		}
+		start := pos{call.Block(), 0}
+		for i, x := range call.Block().Instrs {
+			if x == ssa.Instruction(call) {
+				start.i = i + 1
+			}
+		}
+		seen := map[*ssa.BasicBlock]bool{}
+		var leak ssa.Instruction
+		var walk func(p pos)
+		walk = func(p pos) {
+			if leak != nil {
+				return
+			}
+			for i := p.i; i < len(p.b.Instrs); i++ {
+				x := p.b.Instrs[i]
+				if consumes(x) {
+					return
+				}
+				if _, isRet := x.(*ssa.Return); isRet {
+					leak = x
+					return
+				}
+				if ifi, isIf := x.(*ssa.If); isIf {
+					// nil test on the reference holder: it is non-nil on the acquired path
+					if bo, ok := ifi.Cond.(*ssa.BinOp); ok && (bo.Op == token.EQL || bo.Op == token.NEQ) {
+						var other ssa.Value
+						if recv[bo.X] {
+							other = bo.Y
+						} else if recv[bo.Y] {
+							other = bo.X
+						}
+						if k, isC := other.(*ssa.Const); isC && k.IsNil() {
+							nonNil := 1
+							if bo.Op == token.NEQ {
+								nonNil = 0
+							}
+							s := p.b.Succs[nonNil]
+							if !seen[s] {
+								seen[s] = true
+								walk(pos{s, 0})
+							}
+							return
+						}
+					}
+					cond, neg := ifi.Cond, false
+					if u, ok := cond.(*ssa.UnOp); ok && u.Op == token.NOT {
+						cond, neg = u.X, true
+					}
+					if res[cond] {
+						acquired := 0
+						if neg {
+							acquired = 1
+						}
+						s := p.b.Succs[acquired]
+						if !seen[s] {
+							seen[s] = true
+							walk(pos{s, 0})
+						}
+						return
+					}
+				}
+			}
+			for _, s := range p.b.Succs {
+				if !seen[s] {
+					seen[s] = true
+					walk(pos{s, 0})
+				}
+			}
+		}
+		walk(start)
+		key := FuncName(fn) + "/tryref:" + NewTermer(fn).T(call.Call.Args[0])
+		c.Check(leak == nil, rule, key, c.pos(call), "a reference taken by "+try+" is released, transferred or returned on every path on which it was taken", "the counted reference taken here (when the call returns true) reaches a return (at "+posOf(c, leak)+") without being released or handed on: the endpoint's reference count never drops to zero, so a removed address keeps receiving packets")
+	})
+	return n
+}
+
 func posOf(c *Ctx, in ssa.Instruction) string {
 	if in == nil {
 		return "?"
